@@ -102,7 +102,7 @@ func (g *Gen) cellOfKind(kind string, wild bool, zoneOff int) Cell {
 	case "pstr":
 		return StrCell(plainStrs[g.r.Intn(len(plainStrs))])
 	case "nstr":
-		return StrCell([]string{"1", "2.5", "-3", "1e3", "0.125", "7"}[g.r.Intn(6)])
+		return StrCell([]string{"1", "2.5", "-3", "1e3", "0.125", "7", ".5", "+1", "-.25", "5.", "1E2", "0x10", "inf", "-Inf", "1_000", "+.5e1", "Infinity", "00.5"}[g.r.Intn(18)])
 	case "bool":
 		return BoolCell(g.chance(0.5))
 	case "time":
@@ -284,7 +284,11 @@ func (g *Gen) genOp(kind string, pool []Frame, bad float64) Op {
 	case "loc":
 		k := g.r.Intn(4)
 		for i := 0; i < k; i++ {
-			o.Cells = append(o.Cells, g.cellFrom(f, "index"))
+			if g.chance(0.5) {
+				o.Cells = append(o.Cells, locAlphabet[g.r.Intn(len(locAlphabet))])
+			} else {
+				o.Cells = append(o.Cells, g.cellFrom(f, "index"))
+			}
 		}
 		o.Strs = g.someNames(f, 0, 3, bad)
 	case "iloc":
